@@ -10,6 +10,7 @@ package atree
 
 import (
 	"fmt"
+	"runtime"
 	"strings"
 )
 
@@ -27,6 +28,9 @@ type vhRun struct {
 	reached  []string
 	failed   []string // assertion labels that failed
 	bounds   []string
+
+	allocOn   bool
+	allocBase uint64
 }
 
 type vhObs struct {
@@ -184,8 +188,27 @@ func vhSymbolic() bool { return false }
 func vhLog(args ...any) {}
 
 // vhSetAllocLimit declares, for the engine, the largest make() length the
-// code under test may request from here on (0 = no limit).
-func vhSetAllocLimit(n int) {}
+// code under test may request from here on (0 = no limit). Natively it starts
+// the allocation meter: the bytes allocated from here to the end of the case
+// are reported with the outcome, so that an "allocation out of proportion"
+// counterexample is confirmed by a measurement on the real build.
+func vhSetAllocLimit(n int) {
+	if vhCur != nil && !vhCur.allocOn {
+		var ms runtime.MemStats
+		runtime.ReadMemStats(&ms)
+		vhCur.allocOn = true
+		vhCur.allocBase = ms.TotalAlloc
+	}
+}
+
+func vhAllocatedSince() uint64 {
+	if vhCur == nil || !vhCur.allocOn {
+		return 0
+	}
+	var ms runtime.MemStats
+	runtime.ReadMemStats(&ms)
+	return ms.TotalAlloc - vhCur.allocBase
+}
 
 // vhDebug: development aid (the engine prints a description of the value).
 func vhDebug(label string, v any) {}
